@@ -311,14 +311,33 @@ impl TypeAddress {
         }
 
         // should be a valid typescript identifier
-        let acc = format!(
-            "{}__{}",
-            to_valid_ts_identifier(&Self::min_file_path_that_differs(
-                &self.file,
-                &has_same_name
-            )),
-            self.name
-        );
+        let qualified = |it: &TypeAddress, others: &[TypeAddress]| {
+            format!(
+                "{}__{}",
+                to_valid_ts_identifier(&Self::min_file_path_that_differs(&it.file, others)),
+                it.name
+            )
+        };
+        let acc = qualified(self, &has_same_name);
+
+        // making a path an identifier is not injective (a/b.ts and a_b.ts both give a_b_ts): the
+        // declarations that still share an identifier are numbered in the order of their files
+        let mut sharing: Vec<&TypeAddress> = vec![];
+        for other in &has_same_name {
+            let mut others_of_other: Vec<TypeAddress> = has_same_name
+                .iter()
+                .filter(|it| *it != other)
+                .cloned()
+                .collect();
+            others_of_other.push(self.clone());
+            if qualified(other, &others_of_other) == acc && !sharing.contains(&other) {
+                sharing.push(other);
+            }
+        }
+        if !sharing.is_empty() {
+            let rank = sharing.iter().filter(|it| it.file < self.file).count();
+            return format!("{}_{}", acc, rank);
+        }
 
         acc
     }
